@@ -105,3 +105,11 @@ package blockchain
 //@   onwrite BlockStore.height assert [visible-height-only-after-the-durable-marker] calls(Save) == 1 && newval == block.Header.Height
 //@   ensures [store-height-advanced] bs.height == block.Header.Height
 //@   loop 0 invariant 0 <= i && i <= blockParts.total && wfPartSet(blockParts) && calls(saveBlockPart) == i && calls(Save) == 0 && calls(Set) == 1 && bs.height == old(bs.height) && bs.db != nil
+
+// start-up (C06): RecoverFromCrash decides what to replay by comparing the block store's height with the application's and the
+// state's; it runs after the reactor has been built, so the reactor must leave the store's height as loaded from disk
+//@ func NewBlockchainReactor
+//@   props C06
+//@   requires store != nil
+//@   nosafety
+//@   ensures [start-up-does-not-rewind-the-block-store] store.height == old(store.height)
